@@ -1,7 +1,7 @@
 """Crash-point enumeration shared by C02 and C06: an operation is killed (the
 interposer calls _exit) just before its k-th filesystem call, for every k; fresh
 processes then use the same directories."""
-import concurrent.futures as cf, shutil, time
+import concurrent.futures as cf, os, shutil, time
 from . import common as C, gen as G, scenario as S, trace as T
 
 KEY = ("kk", 7, 9)
@@ -32,13 +32,15 @@ def bases(ctx):
                 L1 = list(cfgl) + plants + [G.FIRE if small else G.NOFIRE]
                 L1.append("op 0 tempdir kk 7 9" if opk[0] == "tempdir" else G.op(0, opk[0], KEY, *opk[1:]))
                 # a fresh process afterwards: every kind of operation must work normally
-                L2 = list(cfgl) + ["snap", G.NOFIRE, G.op(0, "get", KEY), G.op(0, "touch", KEY), G.op(0, "ensure", KEY, "val:P:1"), G.op(0, "put", ("k2", 1, 2), "W", 1),
+                # (later processes stage their own values under other names: what the crashed one left in the
+                #  application's staging area stays as the crash left it)
+                L2 = list(cfgl) + ["stagetag b", "snap", G.NOFIRE, G.op(0, "get", KEY), G.op(0, "touch", KEY), G.op(0, "ensure", KEY, "val:P:1"), G.op(0, "put", ("k2", 1, 2), "W", 1),
                                    G.op(0, "set", ("k5", 2, 3), "Q", 1), G.op(0, "ensure", ("k3", 5, 6), "val:P:1"), G.op(0, "get", ("k5", 2, 3)), "snap"]
                 # two hours later, another process writes with maintenance firing
                 # ... while a peer whose clock runs AHEAD of that process is still writing a temp file in every
                 # temp directory (its modification time lies in the maintainer's future): young, to be left alone
                 tdirs = ["w/.kismet_temp"] if w[0] == "plain" else ["w/%s/.kismet_temp" % G.shard_name(i) for i in range(w[1])]
-                L3 = list(cfgl) + ["plant %s/ahead z 600 {AHEAD} {AHEAD}" % td for td in tdirs] + [G.FIRE, G.op(0, "set", ("k4", 7, 9), "W", 1), G.op(0, "get", KEY), "snap", G.NOFIRE, G.op(0, "set", KEY, "Q", 1), G.op(0, "get", KEY), "snap"]
+                L3 = list(cfgl) + ["stagetag c"] + ["plant %s/ahead z 600 {AHEAD} {AHEAD}" % td for td in tdirs] + [G.FIRE, G.op(0, "set", ("k4", 7, 9), "W", 1), G.op(0, "get", KEY), "snap", G.NOFIRE, G.op(0, "set", KEY, "Q", 1), G.op(0, "get", KEY), "snap"]
                 out.append(({"kind": kind, "pre": pname, "op": opk, "w": w}, L1, L2, L3))
     return out
 
@@ -70,13 +72,21 @@ def enumerate_crashes(ctx, cases=None):
                 r1 = S.run_impl(L1, crash_at=seq, keep=True)
             d = r1.dir
             r2 = S.run_impl(L2, reuse=d, keep=True)
+            # the restarted application finishes its interrupted publication from its own staging name, when
+            # the crash left that name behind (possibly hard-linked to the entry already): the call consumes it
+            r2.extra, a2b = None, []
+            if os.path.exists(os.path.join(d, "root", "stage", "src1")):
+                cfgl = [l for l in L2 if l.startswith(("root", "writer", "reader", "checker", "autosync", "handles", "build"))]
+                L2b = cfgl + [G.NOFIRE, G.op(0, "set_path", KEY, "stage/src1"), "snap"]
+                r2.extra = S.run_impl(L2b, reuse=d, keep=True)
+                a2b = ["resetproc 150"] + S.augment([l for l in L2b if l not in cfgl], r2.extra)
             future = int((time.time() + 7300) * 10**9)
             L3 = [l.replace("{AHEAD}", str(future + 300 * 10**9)) for l in L3]
             r3 = S.run_impl(L3, reuse=d, keep=True, clock=(future, 1000))
             a1 = S.augment(L1, r1, crash_by_step=({1: k} if seq is not None else None))
             a2 = S.augment([l for l in L2 if not l.startswith(("root", "writer", "reader", "checker", "autosync", "handles", "build"))], r2)
             a3 = S.augment([l for l in L3 if not l.startswith(("root", "writer", "reader", "checker", "autosync", "handles", "build"))], r3)
-            model = S.run_model(a1 + ["resetproc 100"] + a2 + ["resetproc 200"] + a3)
+            model = S.run_model(a1 + ["resetproc 100"] + a2 + a2b + ["resetproc 200"] + a3)
             return job, (r1, r2, r3), model
         except Exception as ex:
             return job, None, "EXCEPTION " + repr(ex)
@@ -104,7 +114,8 @@ def compare_phases(runs, model):
             while k < min(len(ta), len(tb)) and ta[k] == tb[k]:
                 k += 1
             diffs.append("crashed operation: trace differs at event %d: impl=%s | model=%s" % (k, T.fmt(ta[k]) if k < len(ta) else "<end>", T.fmt(tb[k]) if k < len(tb) else "<end>"))
-    for off, r in ((100, r2), (200, r3)):
+    extra = getattr(r2, "extra", None)
+    for off, r in ((100, r2),) + (((150, extra),) if extra else ()) + ((200, r3),):
         for st, res in r.results.items():
             mres = model.results.get(off + st)
             if mres is None:
@@ -116,7 +127,7 @@ def compare_phases(runs, model):
                 for key in ("content", "off", "acc", "src_left"):
                     if da.get(key) != db.get(key):
                         diffs.append("step %d %s: %s impl=%s model=%s" % (off + st, res[0], key, da.get(key), db.get(key)))
-    isnaps = r2.snaps + r3.snaps
+    isnaps = r2.snaps + (extra.snaps if extra else []) + r3.snaps
     if len(isnaps) != len(model.snaps):
         diffs.append("snapshot count impl=%d model=%d" % (len(isnaps), len(model.snaps)))
     for i, (sa, sb) in enumerate(zip(isnaps, model.snaps)):
